@@ -329,8 +329,18 @@ def count_rule(chk, prog, only=None):
                     else:
                         chk.record("COUNT.comp", site, "one estimate per input row", verdict="VIOLATION", detail=why)
                         chk.finding("COUNT.comp", f.module.rel, f.qname, "[... for %s in %s]" % (g.target.id, ast.unparse(g.iter)), why, line=n.lineno)
-        if n_loops < min_loops:
-            chk.error("COUNT: %s has %d sample loops, %d confirmed by hand" % (key, n_loops, min_loops))
+        # pin against vacuous passes: at least one sample loop, and no loop that stores a row at its own index escaped the analysis above.  (The per-routine
+        # numbers of the table are today's loop counts; a refactoring may merge the IMU and MARG loops into one whose body selects the streaming call, RA6_1/RA6_3.)
+        cand = 0
+        for lp in ast.walk(f.node):
+            if isinstance(lp, ast.For) and isinstance(lp.target, ast.Name) and any(
+                    isinstance(x, ast.Subscript) and isinstance(x.ctx, ast.Store) and isinstance(x.value, ast.Name)
+                    and isinstance((x.slice.elts[0] if isinstance(x.slice, ast.Tuple) else x.slice), ast.Name)
+                    and (x.slice.elts[0] if isinstance(x.slice, ast.Tuple) else x.slice).id == lp.target.id for x in ast.walk(lp)):
+                cand += 1
+        comps = sum(1 for n_ in ast.walk(f.node) if isinstance(n_, ast.ListComp) and any(isinstance(c, ast.Call) and "estimate" in ast.unparse(c.func) for c in ast.walk(n_.elt)))
+        if n_loops < 1 or n_loops < min(min_loops, cand + comps):
+            chk.error("COUNT: %s has %d analysed sample loops of %d row-storing loops / comprehensions (%d on the tree the table was made from)" % (key, n_loops, cand + comps, min_loops))
 
 
 def loop_ok(fa, node, st, var, arr, idx, allocs):
